@@ -105,11 +105,13 @@ type slot struct {
 	writes int
 	// the SaveKeyValue call that wrote this slot changed the caller's memory
 	callOverwroteCaller bool
+	prev                []byte // saved value of the key before this write
 }
 
 type acct struct {
 	addr  []byte
-	slots map[string]*slot
+	slots map[string]*slot // what a reloaded account must read (saved state)
+	saved bool             // SaveAccount with storage writes happened: the account has a data trie root
 }
 
 func main() {
@@ -117,13 +119,15 @@ func main() {
 	r := vk.Start("C08")
 	r.Rule("each case = 1-3 accounts in a real AccountsDB, 3-8 rounds of {load account, 1-6 SaveKeyValue calls, read all keys, SaveAccount, read again (same handle and reloaded), optionally Commit / RecreateTrie / reopen a second AccountsDB over the same DB and read again}; " +
 		"keys 0-300 bytes (prefixes of each other, equal to / ending with the address), values 0-300 bytes (sometimes up to 64 KiB; ending with key||address, equal to key||address, empty = delete); " +
+		"One quarter of the cases use several live handles of one account (2-3 handles loaded before any is saved, different and sometimes equal keys, saved in random order: union of the writes, last saved handle wins); one round in six holds its handles across a Commit. " +
 		"caller buffer patterns: exact, spare capacity with canaries, key and value adjacent in one buffer (both orders), cap-limited sub-slices, one arena reused for all writes; buffers are scribbled over after the call with probability 1/2. " +
 		"Cases 0..k-1 are the size-limit cases (value length MaxLeafSize+1 rejected; thorough: MaxLeafSize-1 and MaxLeafSize stored and read back). " +
 		"Non-trivial: at least one hostile pattern was used and read back at >= 3 read points; shape = (patterns used, read points reached, value classes).")
 	r.Assume("the harness's own copies of the written bytes are the reference",
 		"only the value returned by RetrieveValue is compared (an error next to an empty value is counted, not failed)",
 		"returned slices are never written to by the harness; the address buffers handed to LoadAccount are never mutated",
-		"the clean twin (same logical writes through fresh exact-size copies) defines which data-trie / state roots are expected")
+		"the clean twin (same logical writes through fresh exact-size copies, one fresh handle per SaveAccount) defines which data-trie / state roots are expected",
+		"multi-handle rounds only use accounts that already have a data trie root, every handle writes at least one key, all handles are loaded before the first of them is saved, and the account is not loaded again between a Commit and the save of a handle held across it; through a saved handle only the keys it wrote itself are read")
 	r.MinShapes(r.N(40, 200))
 
 	nBig := r.N(1, 3)
@@ -145,6 +149,7 @@ type worlds struct {
 	c    *vk.Case
 	a, b *acctmodel.Env
 	log  []string
+	mode string // "" or " mode=multi-handle" (suffix of violation keys)
 }
 
 func (w *worlds) logf(f string, x ...interface{}) { w.log = append(w.log, fmt.Sprintf(f, x...)) }
@@ -197,7 +202,7 @@ func (w *worlds) readAll(point string, ua state.UserAccountHandler, ac *acct, rn
 				w.r.Count("empty_value_with_error", 1)
 			}
 			if len(got) != 0 {
-				w.viol("deleted-key-not-empty at="+point, fmt.Sprintf("%s: key %s was deleted/never written but reads %s", point, short([]byte(k)), short(got)), map[string]interface{}{"key": short([]byte(k)), "got": short(got)})
+				w.viol("deleted-key-not-empty at="+point+w.mode, fmt.Sprintf("%s: key %s was deleted/never written but reads %s", point, short([]byte(k)), short(got)), map[string]interface{}{"key": short([]byte(k)), "got": short(got)})
 				return false
 			}
 			continue
@@ -205,7 +210,10 @@ func (w *worlds) readAll(point string, ua state.UserAccountHandler, ac *acct, rn
 		if bytes.Equal(got, sl.val) {
 			continue
 		}
-		key := "value-mismatch at=" + point
+		key := "value-mismatch at=" + point + w.mode
+		if w.mode != "" && (len(got) == 0 || bytes.Equal(got, sl.prev)) {
+			key = "value-lost" + w.mode // the write is gone: the key reads empty or its previous saved value
+		}
 		if sl.origin != nil && !bytes.Equal(sl.origin, sl.val) && bytes.Equal(got, sl.origin) {
 			key = "stored-value-aliases-caller-buffer"
 		} else if sl.callOverwroteCaller {
@@ -320,25 +328,124 @@ func normalCase(r *vk.Run, c *vk.Case) {
 	classes := map[string]bool{}
 	var lastRoot []byte
 
+	multiCase := rng.Chance(1, 4)
+	if multiCase {
+		r.Count("multi_handle_cases", 1)
+	}
+	// commitBoth commits A and its twin and compares the roots; skip = account that must not be
+	// loaded now (one of its handles is still unsaved)
+	commitBoth := func(pending []callerBufs, skip *acct) bool {
+		rootA, errA := a.ADB.Commit()
+		rootB, errB := b.ADB.Commit()
+		w.logf("  Commit -> %x %v", rootA, errA)
+		if errA != nil || errB != nil {
+			w.viol("commit-error", fmt.Sprintf("Commit: %v / %v", errA, errB), nil)
+			return false
+		}
+		r.Count("commits", 1)
+		lastRoot = rootA
+		if rng.Bool() {
+			for _, bufs := range pending {
+				scribble(bufs)
+			}
+			w.logf("  caller scribbles over all buffers of the round (after Commit)")
+		}
+		r.Eval(1)
+		if !bytes.Equal(rootA, rootB) {
+			w.viol("state-root-differs-from-clean-twin"+w.mode, fmt.Sprintf("committed root %x, twin %x", rootA, rootB), nil)
+			return false
+		}
+		for _, x := range accts {
+			if len(x.slots) == 0 || x == skip || !x.saved {
+				continue
+			}
+			ua, errL := userAcc(a.ADB.GetExistingAccount(cp(x.addr)))
+			if errL != nil {
+				w.viol("load-error"+w.mode, "GetExistingAccount after Commit: "+errL.Error(), nil)
+				return false
+			}
+			points["committed"] = true
+			if !w.readAll("committed", ua, x, rng) {
+				return false
+			}
+		}
+		return true
+	}
+
+	type write struct{ k, v []byte }
+	type hnd struct {
+		h      state.UserAccountHandler
+		how    string
+		writes []write
+		dirty  map[string]*slot
+	}
+
 	rounds := rng.Range(3, 8)
 	for rd := 0; rd < rounds; rd++ {
 		ac := accts[rng.Intn(nAcc)]
-		hA, errA := userAcc(a.ADB.LoadAccount(cp(ac.addr)))
-		hB, errB := userAcc(b.ADB.LoadAccount(cp(ac.addr)))
-		if errA != nil || errB != nil {
-			w.viol("load-error", fmt.Sprintf("LoadAccount: %v / %v", errA, errB), nil)
-			return
+		// multi-handle mode: the account already has a data trie (non-empty root hash), so every
+		// handle loaded now gets the data trie cached under the address (loadDataTrie registers the
+		// trie it recreates): the handles share ONE trie, each handle's dirty map is applied to it at
+		// that handle's own SaveAccount, and every handle writes at least one key (so its save
+		// refreshes the root hash it carries). Model: union of the writes, last SAVED handle wins.
+		nH := 1
+		w.mode = ""
+		if multiCase && ac.saved {
+			nH = rng.Range(2, 3)
+			w.mode = " mode=multi-handle"
+			r.Count("multi_handle_rounds", 1)
+			points["multi-handle"] = true
 		}
-		w.logf("round %d: load account %x", rd, ac.addr[:4])
-		var pending []callerBufs
-		for i, n := 0, rng.Range(1, 6); i < n; i++ {
-			var k []byte
-			if len(pool) > 0 && rng.Chance(1, 2) {
-				k = cp(pool[rng.Intn(len(pool))])
+		// held: a Commit happens between the writes and the saves (handles held across a commit);
+		// the account is not loaded again before its handles are saved
+		held := rng.Chance(1, 6)
+		hs := make([]*hnd, nH)
+		for i := range hs {
+			hs[i] = &hnd{dirty: map[string]*slot{}, how: "LoadAccount"}
+			var errA error
+			if ac.saved && rng.Chance(1, 3) {
+				hs[i].how = "GetExistingAccount"
+				hs[i].h, errA = userAcc(a.ADB.GetExistingAccount(cp(ac.addr)))
 			} else {
+				hs[i].h, errA = userAcc(a.ADB.LoadAccount(cp(ac.addr)))
+			}
+			if errA != nil {
+				w.viol("load-error"+w.mode, fmt.Sprintf("%s: %v", hs[i].how, errA), nil)
+				return
+			}
+			w.logf("round %d: handle %d of account %x via %s", rd, i, ac.addr[:4], hs[i].how)
+		}
+		view := func(h *hnd) *acct {
+			v := &acct{addr: ac.addr, slots: map[string]*slot{}}
+			for k, sl := range ac.slots {
+				v.slots[k] = sl
+			}
+			for k, sl := range h.dirty {
+				v.slots[k] = sl
+			}
+			return v
+		}
+		var pending []callerBufs
+		var groupKeys [][]byte
+		nW := rng.Range(nH, 6)
+		for i := 0; i < nW; i++ {
+			hi := i
+			if i >= nH {
+				hi = rng.Intn(nH)
+			}
+			h := hs[hi]
+			var k []byte
+			switch {
+			case nH > 1 && len(groupKeys) > 0 && rng.Chance(1, 3): // the same key through another handle
+				k = cp(groupKeys[rng.Intn(len(groupKeys))])
+				r.Count("multi_handle_same_key_writes", 1)
+			case len(pool) > 0 && rng.Chance(1, 2):
+				k = cp(pool[rng.Intn(len(pool))])
+			default:
 				k = genKey(rng, ac.addr, pool)
 				pool = append(pool, cp(k))
 			}
+			groupKeys = append(groupKeys, cp(k))
 			v, class := genVal(rng, k, ac.addr)
 			pat := patterns[rng.Intn(len(patterns))]
 			bufs := mkBufs(rng, pat, k, v, arena)
@@ -347,14 +454,14 @@ func normalCase(r *vk.Run, c *vk.Case) {
 				before = append(before, cp(arr))
 			}
 			keyBefore, valBefore := cp(bufs.key), cp(bufs.val)
-			errS := hA.DataTrieTracker().SaveKeyValue(bufs.key, bufs.val)
-			errT := hB.DataTrieTracker().SaveKeyValue(cp(k), cp(v))
+			errS := h.h.DataTrieTracker().SaveKeyValue(bufs.key, bufs.val)
+			h.writes = append(h.writes, write{cp(k), cp(v)})
 			r.Count("writes", 1)
 			r.Count("writes_pattern_"+bufs.pattern, 1)
 			r.Count("writes_class_"+class, 1)
-			w.logf("  SaveKeyValue key=%s value=%s (%s) pattern=%s cap(key)=%d cap(value)=%d -> %v", short(k), short(v), class, bufs.pattern, cap(bufs.key), cap(bufs.val), errS)
-			if errS != nil || errT != nil {
-				w.viol("savekeyvalue-error", fmt.Sprintf("SaveKeyValue(len %d, len %d): %v / %v", len(k), len(v), errS, errT), nil)
+			w.logf("  handle %d: SaveKeyValue key=%s value=%s (%s) pattern=%s cap(key)=%d cap(value)=%d -> %v", hi, short(k), short(v), class, bufs.pattern, cap(bufs.key), cap(bufs.val), errS)
+			if errS != nil {
+				w.viol("savekeyvalue-error", fmt.Sprintf("SaveKeyValue(len %d, len %d): %v", len(k), len(v), errS), nil)
 				return
 			}
 			usedPatterns[bufs.pattern] = true
@@ -383,16 +490,14 @@ func normalCase(r *vk.Run, c *vk.Case) {
 				}
 				w.viol("caller-buffer-overwritten", fmt.Sprintf("SaveKeyValue(key len %d cap %d, value len %d cap %d, pattern %s) changed the caller's backing array at offset %d", len(k), cap(bufs.key), len(v), cap(bufs.val), bufs.pattern, first),
 					map[string]interface{}{"pattern": bufs.pattern, "array_before": short(arrBefore), "array_after": short(arrNow), "first_changed_offset": first})
-				// the stored value may still be right: keep going (own key) — but the reference
-				// for "bytes passed at write time" stays k / v
+				// the stored value may still be right: keep going (own key) — the reference for
+				// "bytes passed at write time" stays k / v
 			}
-			sl := ac.slots[string(k)]
-			if sl == nil {
-				sl = &slot{}
-				ac.slots[string(k)] = sl
+			sl := &slot{val: cp(v), origin: bufs.val, pat: bufs.pattern, callOverwroteCaller: overwritten}
+			if old := ac.slots[string(k)]; old != nil {
+				sl.prev = old.val
 			}
-			sl.val, sl.origin, sl.pat, sl.callOverwroteCaller = cp(v), bufs.val, bufs.pattern, overwritten
-			sl.writes++
+			h.dirty[string(k)] = sl
 			if bufs.pattern == "arena-reused" {
 				// earlier slots written through the arena keep pointing into it: that is the point
 				r.Count("arena_rewrites", 1)
@@ -400,7 +505,7 @@ func normalCase(r *vk.Run, c *vk.Case) {
 			pending = append(pending, bufs)
 			if rng.Bool() {
 				// read before the caller touches its buffers
-				if !w.readAll("dirty", hA, ac, rng) {
+				if !w.readAll("dirty", h.h, view(h), rng) {
 					return
 				}
 			}
@@ -411,14 +516,59 @@ func normalCase(r *vk.Run, c *vk.Case) {
 			}
 		}
 		points["dirty"] = true
-		if !w.readAll("dirty", hA, ac, rng) {
-			return
+		for _, h := range hs {
+			// no handle of the group has been saved yet: each one sees the saved state + its own writes
+			if !w.readAll("dirty", h.h, view(h), rng) {
+				return
+			}
 		}
-		errA, errB = a.ADB.SaveAccount(hA), b.ADB.SaveAccount(hB)
-		w.logf("  SaveAccount -> %v", errA)
-		if errA != nil || errB != nil {
-			w.viol("saveaccount-error", fmt.Sprintf("SaveAccount: %v / %v", errA, errB), nil)
-			return
+		if held {
+			r.Count("rounds_with_handles_held_across_commit", 1)
+			points["held-across-commit"] = true
+			w.logf("  (handles held across the following commit)")
+			if !commitBoth(pending, ac) {
+				return
+			}
+			for _, h := range hs {
+				if !w.readAll("dirty", h.h, view(h), rng) {
+					return
+				}
+			}
+		}
+		for _, hi := range rng.Perm(nH) {
+			h := hs[hi]
+			errA := a.ADB.SaveAccount(h.h)
+			// the clean twin receives the same logical writes through one fresh handle per save
+			hB, errB := userAcc(b.ADB.LoadAccount(cp(ac.addr)))
+			if errB == nil {
+				for _, wr := range h.writes {
+					if errB = hB.DataTrieTracker().SaveKeyValue(cp(wr.k), cp(wr.v)); errB != nil {
+						break
+					}
+				}
+			}
+			if errB == nil {
+				errB = b.ADB.SaveAccount(hB)
+			}
+			w.logf("  handle %d: SaveAccount -> %v", hi, errA)
+			if errA != nil || errB != nil {
+				w.viol("saveaccount-error"+w.mode, fmt.Sprintf("SaveAccount: %v / twin %v", errA, errB), nil)
+				return
+			}
+			own := &acct{addr: ac.addr, slots: map[string]*slot{}}
+			for k, sl := range h.dirty {
+				ac.slots[k] = sl // last saved wins
+				own.slots[k] = sl
+			}
+			ac.saved = true
+			points["saved-same-handle"] = true
+			if nH == 1 {
+				own = ac
+			}
+			// through the handle just saved: in multi-handle mode only the keys it wrote itself
+			if !w.readAll("saved-same-handle", h.h, own, rng) {
+				return
+			}
 		}
 		if rng.Bool() {
 			for _, bufs := range pending {
@@ -427,59 +577,25 @@ func normalCase(r *vk.Run, c *vk.Case) {
 			r.Count("scribbles_after_save", 1)
 			w.logf("  caller scribbles over all buffers of the round (after SaveAccount)")
 		}
-		points["saved-same-handle"] = true
-		if !w.readAll("saved-same-handle", hA, ac, rng) {
-			return
-		}
 		rA, errA := userAcc(a.ADB.GetExistingAccount(cp(ac.addr)))
 		rB, errB := userAcc(b.ADB.GetExistingAccount(cp(ac.addr)))
 		if errA != nil || errB != nil {
-			w.viol("load-error", fmt.Sprintf("GetExistingAccount after SaveAccount: %v / %v", errA, errB), nil)
+			w.viol("load-error"+w.mode, fmt.Sprintf("GetExistingAccount after SaveAccount: %v / twin %v", errA, errB), nil)
 			return
 		}
 		points["saved-reloaded"] = true
 		if !w.readAll("saved-reloaded", rA, ac, rng) {
 			return
 		}
-		// (3) what is stored does not depend on the caller's buffers
+		// (3) what is stored does not depend on the caller's buffers (nor on how many handles were used)
 		r.Eval(1)
 		if !bytes.Equal(rA.GetRootHash(), rB.GetRootHash()) {
-			w.viol("data-root-differs-from-clean-twin", fmt.Sprintf("after SaveAccount the account's data-trie root is %x, the twin that received fresh copies of the same keys/values has %x (all values read back equal)", rA.GetRootHash(), rB.GetRootHash()), nil)
+			w.viol("data-root-differs-from-clean-twin"+w.mode, fmt.Sprintf("after SaveAccount the account's data-trie root is %x, the twin that received fresh copies of the same keys/values has %x (all values read back equal)", rA.GetRootHash(), rB.GetRootHash()), nil)
 			return
 		}
 		if rng.Chance(3, 5) {
-			rootA, errA := a.ADB.Commit()
-			rootB, errB := b.ADB.Commit()
-			w.logf("  Commit -> %x %v", rootA, errA)
-			if errA != nil || errB != nil {
-				w.viol("commit-error", fmt.Sprintf("Commit: %v / %v", errA, errB), nil)
+			if !commitBoth(pending, nil) {
 				return
-			}
-			r.Count("commits", 1)
-			lastRoot = rootA
-			if rng.Bool() {
-				for _, bufs := range pending {
-					scribble(bufs)
-				}
-				w.logf("  caller scribbles over all buffers of the round (after Commit)")
-			}
-			r.Eval(1)
-			if !bytes.Equal(rootA, rootB) {
-				w.viol("state-root-differs-from-clean-twin", fmt.Sprintf("committed root %x, twin %x", rootA, rootB), nil)
-				return
-			}
-			for _, x := range accts {
-				if len(x.slots) == 0 {
-					continue
-				}
-				ua, errL := userAcc(a.ADB.GetExistingAccount(cp(x.addr)))
-				if errL != nil {
-					continue // never saved yet
-				}
-				points["committed"] = true
-				if !w.readAll("committed", ua, x, rng) {
-					return
-				}
 			}
 			if rng.Chance(1, 3) {
 				if errR := a.ADB.RecreateTrie(lastRoot); errR != nil {
@@ -489,7 +605,7 @@ func normalCase(r *vk.Run, c *vk.Case) {
 				w.logf("  RecreateTrie(%x)", lastRoot[:4])
 				ua, errL := userAcc(a.ADB.GetExistingAccount(cp(ac.addr)))
 				if errL != nil {
-					w.viol("load-error", "after RecreateTrie: "+errL.Error(), nil)
+					w.viol("load-error"+w.mode, "after RecreateTrie: "+errL.Error(), nil)
 					return
 				}
 				points["recreated"] = true
@@ -513,7 +629,7 @@ func normalCase(r *vk.Run, c *vk.Case) {
 				ua, errL := userAcc(e2.ADB.GetExistingAccount(cp(ac.addr)))
 				if errL != nil {
 					e2.Close()
-					w.viol("load-error", "after reopen: "+errL.Error(), nil)
+					w.viol("load-error"+w.mode, "after reopen: "+errL.Error(), nil)
 					return
 				}
 				points["reopened"] = true
